@@ -6,6 +6,7 @@
 \* functions it calls (which must have been stored earlier); no key may be stored twice (memoisation); the reported diagnostics
 \* must be the ones the specification collects from the table.
 EXTENDS GramPeg, Json, IOUtils
+CONSTANT CheckDemanded      \* C17: also require that the parser computed exactly the results the start symbol asks for
 Rec == ndJsonDeserialize(IOEnv.TRACE)
 VARIABLES l
 Bad(what) == Print(<<"TRACE-REJECT", l, what>>, TRUE)
@@ -23,6 +24,8 @@ PegEv(e) ==
        ELSE /\ \A k \in DOMAIN M : EntryOK(M, e.toks, k)
             /\ IF (\A k \in DOMAIN M : \E b \in {Body(M, e.toks, M[k].nt, M[k].start)} : b.used \subseteq DOMAIN M) /\ SyntaxErrors(M, e.toks) # e.errs
                THEN Bad(<<"C15", "reported syntax diagnostics differ from those the table yields (position / expectation / order)", e.errs, SyntaxErrors(M, e.toks)>>) ELSE TRUE
+            /\ IF CheckDemanded /\ (\A k \in DOMAIN M : \E b \in {Body(M, e.toks, M[k].nt, M[k].start)} : b.used \subseteq DOMAIN M) /\ DOMAIN M # Demanded(M, e.toks)
+               THEN Bad(<<"C17", "the parser computed results that nothing asks for (work beyond what the specification's parse demands)", Cardinality(DOMAIN M), Cardinality(Demanded(M, e.toks))>>) ELSE TRUE
             /\ IF (e.errs = <<>>) # (M[Key("Term", 0)].ne = 0 /\ M[Key("Term", 0)].next = Len(e.toks))
                THEN Bad(<<"C14", "acceptance by the syntax stage and reported diagnostics disagree">>) ELSE TRUE
 TInit == l = 1
